@@ -1,9 +1,13 @@
 (* C39: PeerConnection.SetConfiguration (peerconnection.go), with
    initConfiguration (what NewPeerConnection stores) and ICEServer.validate /
    ICEServer.urls (iceserver.go), in the code's check/assign order.
-   Certificates are identities (Certificate.Equals = same key and same x509
-   certificate); stun.ParseURI is abstracted to the class of each URL.
-   No proofs here. *)
+   A Certificate is (dynamic type of the private key, identity of the private
+   key, identity of the x509 certificate) and Certificate.Equals
+   (certificate.go) is modelled on those three: the identity of a certificate
+   is its x509 certificate together with its key, NOT the key alone -- two
+   certificates issued for one key (GenerateCertificate(sk) twice, a renewal)
+   are different certificates.  stun.ParseURI is abstracted to the class of
+   each URL.  No proofs here. *)
 From Coq Require Import List Bool String NArith ZArith.
 Import ListNotations.
 From Verif Require Import Common.Base.
@@ -22,13 +26,40 @@ Record server := {
   s_credtype : Z;           (* 0 password, 1 oauth, anything else *)
 }.
 
+(* dynamic type of Certificate.privateKey: *rsa.PrivateKey, *ecdsa.PrivateKey,
+   or nil / anything else (the zero Certificate{}) *)
+Inductive keytype := KNone | KRsa | KEcdsa.
+
+Record cert := {
+  c_ktype : keytype;
+  c_key : Z;                (* identity of the private key (RSA: N; ECDSA: X, Y) *)
+  c_x509 : Z;               (* identity of the x509 certificate (its raw DER bytes) *)
+}.
+
+(* Certificate.Equals: switch on the receiver's key type; the argument's key
+   must have the same type and the same value; then x509Cert.Equal *)
+Definition cert_equals (c o : cert) : bool :=
+  match c_ktype c with
+  | KRsa =>
+      match c_ktype o with
+      | KRsa => if negb (Z.eqb (c_key c) (c_key o)) then false else Z.eqb (c_x509 c) (c_x509 o)
+      | _ => false
+      end
+  | KEcdsa =>
+      match c_ktype o with
+      | KEcdsa => if negb (Z.eqb (c_key c) (c_key o)) then false else Z.eqb (c_x509 c) (c_x509 o)
+      | _ => false
+      end
+  | KNone => false
+  end.
+
 Record config := {
   servers : list server;
   policy : Z;               (* ICETransportPolicy *)
   bundle : Z;               (* BundlePolicy, 0 = unknown *)
   rtcpmux : Z;              (* RTCPMuxPolicy, 0 = unknown *)
   identity : string;        (* PeerIdentity *)
-  certs : list Z;           (* certificate identities *)
+  certs : list cert;
   pool : N;                 (* ICECandidatePoolSize, uint8 *)
   semantics : Z;            (* SDPSemantics *)
   always_dc : bool;         (* AlwaysNegotiateDataChannels *)
@@ -71,7 +102,7 @@ Definition default_config : config :=
      pool := 0; semantics := 0; always_dc := false |}.
 
 (* identity the harness gives the certificate pion generates when none is configured *)
-Definition generated_cert : Z := 100.
+Definition generated_cert : cert := {| c_ktype := KEcdsa; c_key := 100; c_x509 := 100 |}.
 
 (* initConfiguration (certificate expiry is not modelled: the harness uses valid ones) *)
 Definition init_configuration (c : config) : result config :=
@@ -100,7 +131,7 @@ Definition init_configuration (c : config) : result config :=
 Definition with_identity (c : config) (x : string) : config :=
   {| servers := servers c; policy := policy c; bundle := bundle c; rtcpmux := rtcpmux c;
      identity := x; certs := certs c; pool := pool c; semantics := semantics c; always_dc := always_dc c |}.
-Definition with_certs (c : config) (x : list Z) : config :=
+Definition with_certs (c : config) (x : list cert) : config :=
   {| servers := servers c; policy := policy c; bundle := bundle c; rtcpmux := rtcpmux c;
      identity := identity c; certs := x; pool := pool c; semantics := semantics c; always_dc := always_dc c |}.
 Definition with_bundle (c : config) (x : Z) : config :=
@@ -114,13 +145,16 @@ Definition with_tail (c : config) (p : Z) (dc : bool) (s : list server) : config
      identity := identity c; certs := certs c; pool := pool c; semantics := semantics c; always_dc := dc |}.
 
 (* "for i, certificate := range new { if !cur[i].Equals(certificate) {error} }"
-   after the length check; an index past the end of cur would be a panic *)
-Fixpoint certs_equal (cur new : list Z) : result bool :=
+   after the length check; an index past the end of cur would be a panic.
+   The comparison is a parameter only so that Properties/C39.v can show what a
+   weaker one (key alone) would let through; the code's is cert_equals. *)
+Fixpoint certs_equal_by (eq : cert -> cert -> bool) (cur new : list cert) : result bool :=
   match new, cur with
   | [], _ => Ok true
   | _ :: _, [] => Panic
-  | n :: ns, c :: cs => if Z.eqb c n then certs_equal cs ns else Ok false
+  | n :: ns, c :: cs => if eq c n then certs_equal_by eq cs ns else Ok false
   end.
+Definition certs_equal := certs_equal_by cert_equals.
 
 (* SetConfiguration, one definition per block of the Go function.  Each block
    returns the stored configuration afterwards and nil or the error. *)
@@ -130,19 +164,20 @@ Definition sc_identity (c new : config) : config * result unit :=
     else (with_identity c (identity new), Ok tt)
   else (c, Ok tt).
 
-Definition sc_certs (c new : config) : config * result unit :=
+Definition sc_certs_by (eq : cert -> cert -> bool) (c new : config) : config * result unit :=
   match certs new with
   | [] => (c, Ok tt)
   | _ =>
       if negb (Nat.eqb (List.length (certs new)) (List.length (certs c)))
       then (c, Err E_modification)
-      else match certs_equal (certs c) (certs new) with
+      else match certs_equal_by eq (certs c) (certs new) with
            | Ok true => (with_certs c (certs new), Ok tt)
            | Ok false => (c, Err E_modification)
            | Err e => (c, Err e)
            | Panic => (c, Panic)
            end
   end.
+Definition sc_certs := sc_certs_by cert_equals.
 
 Definition sc_bundle (c new : config) : config * result unit :=
   if negb (Z.eqb (bundle new) 0) then
@@ -213,10 +248,18 @@ Definition crun (s : cstate) (os : list cop) : cstate := fold_left (fun st o => 
    differs from the stored one (zero values mean "leave as is") *)
 Definition changes_identity (cur new : config) : bool :=
   negb (String.eqb (identity new) "") && negb (String.eqb (identity new) (identity cur)).
-Definition list_Z_eqb (a b : list Z) : bool :=
-  Nat.eqb (List.length a) (List.length b) && forallb (fun p => Z.eqb (fst p) (snd p)) (combine a b).
+(* the same certificate: a key pion can compare (RSA or ECDSA), the same key
+   AND the same x509 certificate *)
+Definition keytype_eqb (a b : keytype) : bool :=
+  match a, b with KNone, KNone | KRsa, KRsa | KEcdsa, KEcdsa => true | _, _ => false end.
+Definition comparable (c : cert) : bool := match c_ktype c with KNone => false | _ => true end.
+Definition same_cert (a b : cert) : bool :=
+  comparable a && keytype_eqb (c_ktype a) (c_ktype b) && Z.eqb (c_key a) (c_key b)
+  && Z.eqb (c_x509 a) (c_x509 b).
+Definition list_cert_same (a b : list cert) : bool :=
+  Nat.eqb (List.length a) (List.length b) && forallb (fun p => same_cert (fst p) (snd p)) (combine a b).
 Definition changes_certs (cur new : config) : bool :=
-  match certs new with [] => false | _ => negb (list_Z_eqb (certs cur) (certs new)) end.
+  match certs new with [] => false | _ => negb (list_cert_same (certs cur) (certs new)) end.
 Definition changes_bundle (cur new : config) : bool :=
   negb (Z.eqb (bundle new) 0) && negb (Z.eqb (bundle new) (bundle cur)).
 Definition changes_rtcpmux (cur new : config) : bool :=
